@@ -394,8 +394,8 @@ structure SrcArgs where
 open TonVerif.Generated.HeapSrc TonVerif.Proofs.SrcHeap in
 /-- the regenerated bit-moving methods applicable to `self` with arguments `a`, as transitions, each with the model operation it is
 proved equal to.  `store_uint` whose `int2ba` raises and `load_uint(0)` (`ba2int` of nothing raises) are the failing transition
-(`observe` of a non-cell: heap unchanged, `err`).  `store_slice` is listed for slices with `ref_offset ≤ len(refs)` (true of every
-slice the library produces: `load_ref` raises at the end; not carried as an invariant here). -/
+(`observe` of a non-cell: heap unchanged, `err`).  (`store_slice` needs `ref_offset ≤ len(refs)` of its argument: that is the
+invariant `WF.offLe`, carried by every history.) -/
 def srcBits (H : Bytes → Bytes) (σ : State) (self : Nat) (a : SrcArgs) : List (Op × (State × Out)) :=
   (if σ.has self .builder then
     [(Op.storeBits self a.bs, Py.Heap.resultUnit σ (Builder_store_bits H σ self a.bs)),
@@ -403,8 +403,7 @@ def srcBits (H : Bytes → Bytes) (σ : State) (self : Nat) (a : SrcArgs) : List
         Py.Heap.resultUnit σ (Builder_store_uint H σ self a.v a.n))] ++
     (if σ.has a.arg .ubits then [(Op.storeFrom self a.arg, Py.Heap.resultUnit σ (Builder_store_bits H σ self (σ.bitsOf a.arg)))] else []) ++
     (if σ.has a.arg .cell then [(Op.storeFrom self a.arg, Py.Heap.resultUnit σ (Builder_store_cell H σ self a.arg))] else []) ++
-    (if σ.has a.arg .slice && decide ((σ.obj a.arg).off ≤ (σ.refBuf (σ.obj a.arg).refsId).length) then
-      [(Op.storeFrom self a.arg, Py.Heap.resultUnit σ (Builder_store_slice H σ self a.arg))] else [])
+    (if σ.has a.arg .slice then [(Op.storeFrom self a.arg, Py.Heap.resultUnit σ (Builder_store_slice H σ self a.arg))] else [])
    else []) ++
   (if σ.has self .slice then
     [(Op.peekBits self a.n, Py.Heap.resultBits σ (Slice_preload_bits H σ self a.n)),
@@ -448,15 +447,14 @@ theorem c08_src_bits_step (H : Bytes → Bytes) (σ : State) (h : Inv H σ) (sel
           · simp only [hc, if_true, List.mem_cons, List.not_mem_nil, or_false] at h3
             subst h3; exact Builder_store_cell_eq H σ h.wf self a.arg hb hc
           · simp [hc] at h3
-      · by_cases hs : (σ.has a.arg .slice && decide ((σ.obj a.arg).off ≤ (σ.refBuf (σ.obj a.arg).refsId).length)) = true
+      · by_cases hs : σ.has a.arg .slice = true
         · simp only [hs, if_true, List.mem_cons, List.not_mem_nil, or_false] at h2
           subst h2
-          simp only [Bool.and_eq_true, decide_eq_true_eq] at hs
           obtain ⟨hbi, hbt⟩ := has_iff.1 hb
-          obtain ⟨hsi, hst⟩ := has_iff.1 hs.1
+          obtain ⟨hsi, hst⟩ := has_iff.1 hs
           have hne : self ≠ a.arg := by intro e; rw [e, hst] at hbt; cases hbt
-          exact Builder_store_slice_eq H σ h.wf self a.arg hb hs.1
-            (h.sep.sepR self a.arg hbi hsi hne (by simp [hbt, Tag.owner]) (by simp [hst, Tag.hasRefs])) hs.2
+          exact Builder_store_slice_eq H σ h.wf self a.arg hb hs
+            (h.sep.sepR self a.arg hbi hsi hne (by simp [hbt, Tag.owner]) (by simp [hst, Tag.hasRefs]))
         · simp [hs] at h2
     · simp [hb] at h1
   · by_cases hs : σ.has self .slice = true
@@ -473,26 +471,64 @@ theorem c08_src_bits_step (H : Bytes → Bytes) (σ : State) (h : Inv H σ) (sel
           exact (Slice_load_uint_eq H σ self a.n (by omega) hs).1
     · simp [hs] at h1
 
+open TonVerif.Generated.HeapSrc TonVerif.Proofs.SrcHeap in
+/-- REGENERATED `Cell(bits, refs, cell_type)` = MODEL `cellCtor`, on every heap, for every caller-held array `ub` and list `ur`.
+`Cell___init__` is read off boc/cell.py on every run: the two pointer stores (`self.bits = bits`, `self.refs = refs`, repeated by
+`NullCell.__init__`) decide which containers the new object points to; every other attribute is a cache computed by methods that were
+inspected to only READ `.bits` / `.refs` (`resolve_mask`, `calculate_hashes`, `get_descriptors`, `get_depth`, `get_hash` ...), except
+`get_data_bytes`, which is translated and run as a scratch call.  The theorem: the call raises exactly when the model's constructor
+refuses the content; otherwise the ONLY change of the heap is one new Cell record whose `.bits` / `.refs` are the caller's OWN two
+containers (no copy), whose caches are what `construct` computes from their present content - no container is allocated that
+survives the call, none is written, no other record changes. -/
+theorem c08_src_ctor_step (H : Bytes → Bytes) (σ : State) (ub ur : Nat) (kind : Int)
+    (hb : σ.has ub .ubits = true) (hr : σ.has ur .urefs = true) :
+    Py.Heap.result σ (Cell___init__ H σ (σ.obj ub).bitsId (σ.obj ur).refsId kind) = step H σ (.cellCtor ub ur kind) ∧
+    (∀ σ' c, Cell___init__ H σ (σ.obj ub).bitsId (σ.obj ur).refsId kind = some (σ', c) →
+      c = σ.nObj ∧ (σ'.obj c).tag = .cell ∧ (σ'.obj c).bitsId = (σ.obj ub).bitsId ∧ (σ'.obj c).refsId = (σ.obj ur).refsId ∧
+      σ'.bitBuf = σ.bitBuf ∧ σ'.refBuf = σ.refBuf ∧ σ'.nBit = σ.nBit ∧ σ'.nRef = σ.nRef ∧ σ'.nObj = σ.nObj + 1 ∧
+      ∀ j, j ≠ c → σ'.obj j = σ.obj j) := by
+  refine ⟨Cell___init___eq H σ ub ur kind hb hr, ?_⟩
+  intro σ' c h
+  simp only [Cell___init__, Py.Heap.newCell?] at h
+  cases hm : mkCellRec H σ (σ.obj ub).bitsId (σ.obj ur).refsId kind (σ.bitBuf (σ.obj ub).bitsId) (σ.refBuf (σ.obj ur).refsId) with
+  | none => simp [hm] at h
+  | some rec =>
+    simp only [hm, Option.map_some, Option.bind_some, scratch_get_data_bytes, Option.some.injEq, Prod.mk.injEq] at h
+    obtain ⟨rfl, rfl⟩ := h
+    simp only [mkCellRec, Option.map_eq_some_iff] at hm
+    obtain ⟨info, _, rfl⟩ := hm
+    refine ⟨rfl, by simp [State.push], by simp [State.push], by simp [State.push], rfl, rfl, rfl, rfl, rfl, ?_⟩
+    intro j hj; simp [State.push, hj]
+
 /-- EVERY regenerated call, as a transition tagged with the model operation it equals: the eleven copy / derive methods, `store_ref`,
-`load_ref`, and the bit-moving loads / stores. -/
+`load_ref`, the bit-moving loads / stores, and the constructor `Cell(array self, list a.arg, a.v)`. -/
 def srcCalls (H : Bytes → Bytes) (σ : State) (self : Nat) (a : SrcArgs) : List (Op × (State × Out)) :=
-  (srcDerive H σ self).map (fun r => (Op.derive self r.1, r.2)) ++ srcMut H σ self a.arg ++ srcBits H σ self a
+  (srcDerive H σ self).map (fun r => (Op.derive self r.1, r.2)) ++ srcMut H σ self a.arg ++ srcBits H σ self a ++
+  (if σ.has self .ubits && σ.has a.arg .urefs then
+    [(Op.cellCtor self a.arg a.v,
+      Py.Heap.result σ (TonVerif.Generated.HeapSrc.Cell___init__ H σ (σ.obj self).bitsId (σ.obj a.arg).refsId a.v))] else [])
 
 /-- every regenerated call is the model step it is tagged with -/
 theorem c08_src_calls_step (H : Bytes → Bytes) (σ : State) (h : Inv H σ) (self : Nat) (a : SrcArgs) :
     ∀ r ∈ srcCalls H σ self a, r.2 = step H σ r.1 := by
   intro r hr
   unfold srcCalls at hr
-  rcases List.mem_append.1 hr with h1 | h1
-  · rcases List.mem_append.1 h1 with h2 | h2
-    · obtain ⟨q, hq, rfl⟩ := List.mem_map.1 h2
-      exact c08_src_step H σ h.wf self q hq
-    · exact (c08_src_separation_mut H σ h self a.arg r h2).1
-  · exact c08_src_bits_step H σ h self a r h1
+  rcases List.mem_append.1 hr with h0 | h0
+  · rcases List.mem_append.1 h0 with h1 | h1
+    · rcases List.mem_append.1 h1 with h2 | h2
+      · obtain ⟨q, hq, rfl⟩ := List.mem_map.1 h2
+        exact c08_src_step H σ h.wf self q hq
+      · exact (c08_src_separation_mut H σ h self a.arg r h2).1
+    · exact c08_src_bits_step H σ h self a r h1
+  · by_cases hc : (σ.has self .ubits && σ.has a.arg .urefs) = true
+    · simp only [hc, if_true, List.mem_cons, List.not_mem_nil, or_false] at h0
+      subst h0
+      simp only [Bool.and_eq_true] at hc
+      exact (c08_src_ctor_step H σ self a.arg a.v hc.1 hc.2).1
+    · simp [hc] at h0
 
 /-- a history over the WHOLE op alphabet: regenerated source calls (any of `srcCalls`, any receiver, any arguments) interleaved with
-the transitions that are still hand model (`Cell(bits, refs)`, the cells of `Boc.deserialize`, `hash` / `to_boc`, the caller creating
-arrays and lists) -/
+the transitions that are still hand model (the cells of `Boc.deserialize`, `hash` / `to_boc`, the caller creating arrays and lists) -/
 inductive SrcRun (H : Bytes → Bytes) : State → State → Prop where
   | done (σ : State) : SrcRun H σ σ
   | src (σ : State) (self : Nat) (a : SrcArgs) (r : Op × (State × Out)) (σ' : State) :
@@ -584,6 +620,16 @@ theorem c08_src_ctor_step_partial (H : Bytes → Bytes) (σ σ' : State) (ub ur 
     · simp at hstep
   · obtain ⟨σ'', v, h1, h2, h3, h4, h5, _⟩ := Cell_get_data_bytes_frame H σ' c
     exact ⟨σ'', v, h1, h2, h3, h4, h5⟩
+
+open TonVerif.Generated.HeapSrc in
+/-- non-vacuity: on `demo` the regenerated constructor applied to the caller's array 0 and list 1 (already shared by cells 2 and 3) makes
+object 9, a cell pointing at the very same two containers; nothing is allocated. -/
+example :
+    (Cell___init__ H0 (run H0 init demo) ((run H0 init demo).obj 0).bitsId ((run H0 init demo).obj 1).refsId (-1)).map
+      (fun r => (r.2, (r.1.obj r.2).bitsId == (r.1.obj 2).bitsId, (r.1.obj r.2).refsId == (r.1.obj 2).refsId,
+        r.1.nBit == (run H0 init demo).nBit, r.1.nRef == (run H0 init demo).nRef)) = some (9, true, true, true, true) ∧
+    (run H0 init demo).has 0 .ubits = true ∧ (run H0 init demo).has 1 .urefs = true := by
+  decide +kernel
 
 open TonVerif.Generated.HeapSrc in
 /-- non-vacuity: in `demo`, cell 2 was built by `Cell(array 0, list 1)`; the regenerated `get_data_bytes` on it returns `10110` padded to
